@@ -45,7 +45,7 @@ func TestStructure(t *testing.T) {
 		p.Retarget = true
 		p.MaxTx, p.MaxOps = 12, 80
 	}
-	pbt.Check(t, pbt.Cfg{Name: "structure", Quick: 1500, Thorough: 40000}, func(r *pbt.Run) {
+	pbt.Check(t, pbt.Cfg{Name: "structure", Quick: 1500, Thorough: 12000}, func(r *pbt.Run) {
 		c := sim.GenCase(r.T, p)
 		r.Case(c)
 		s, err := sim.RunCaseOpen(c, env.Options{}, sim.Hooks{}, pbt.FindingOpen)
